@@ -12,6 +12,7 @@ from lcsa.alg import Rat
 from lcsa.model import Undecided, unparse
 from lcsa.ref import Pair, ref_program
 from lcsa.dt import compare_rows, feasible_with
+from lcsa.lin import Lin
 from lcsa.sym import (Evaluator, VStackV, ConcatV, ProfileV, ZerosV, RepV, ARangeV, SeqV, LETTERS, fmt_conds,
                       subst_deep, Path, ObjV, _Frame)
 from lcsa import tab, bind
@@ -41,7 +42,7 @@ def run(ck, prog):
         "compared with the reference window statistics; substituting the whole sequence for the window must give the "
         "global parameter's normal form.")
     ck.assumptions += ["float rounding not analysed", "window size is a positive integer"]
-    check_charge_map(ck, prog)
+    ck.attempt(check_charge_map, ck, prog)
     n_prof = 0
     for meth, extra, refstat, base, glob in PROFILES:
         f = prog.fn(SEQ, "Sequence." + meth)
@@ -58,7 +59,8 @@ def run(ck, prog):
             rows = None
         _guard(ck, prog, f, construct, tag, paths=rows)
         # ---- both parities
-        for parity, wval in (("even", K * Rat.const(2)), ("odd", K * Rat.const(2) + Rat.const(1))):
+        # w = 2k (k >= 1), w = 2k+1 (k >= 1: the evaluator takes k as strictly positive) and, separately, the smallest window w = 1
+        for parity, wval in (("even", K * Rat.const(2)), ("odd", K * Rat.const(2) + Rat.const(1)), ("one", Rat.const(1))):
             pair = Pair(prog, positive=("N", "k", "w"))
             pair.code.int_atoms = {"k"}
             pair.ref.int_atoms = {"k"}
@@ -69,6 +71,12 @@ def run(ck, prog):
             args["bloblen"] = wval
             paths = pair.code.run_function(f, args)
             live = [p for p in paths if p.kind == "return"]
+            # a window that fits (1 <= w <= N) is answered: no raising path may be reachable with N >= w
+            dom_k = [Lin({"k": -1}, 1 if parity == "even" else 0, "<=")]
+            rejected = [p for p in paths if p.kind == "raise" and feasible_with(list(p.conds) + [("cmp", N, ">=", wval)], dom_k, {"N"}, int_atoms={"N", "k"}) is not None]
+            ck.ob("PARITY", construct, not rejected, expected="every window size 1 <= w <= N is answered",
+                  found=[(fmt_conds(p.conds), p.value) for p in rejected][:3] or "answered", slot="%s:%s:total" % (tag, parity), where=f.loc(),
+                  note="the profile is defined for every window that fits the sequence, w = 1 included")
             if len(live) != 1:
                 ck.ob("PARITY", construct, False, expected="one non-raising path for %s w" % parity,
                       found=[(fmt_conds(p.conds), p.kind) for p in paths], slot="%s:%s:paths" % (tag, parity), where=f.loc())
@@ -83,8 +91,8 @@ def run(ck, prog):
             ck.ob("ALG-positions", construct, pos.lo.equals(Rat.const(1)) and pos.hi.equals(N + Rat.const(1)),
                   expected="positions 1..N", found=[repr(pos.lo), repr(pos.hi)], slot="%s:%s:positions" % (tag, parity), where=f.loc())
             # (w-1)/2 floor / ceil
-            exp_left = K - Rat.const(1) if parity == "even" else K
-            exp_right = K
+            exp_left = K - Rat.const(1) if parity == "even" else (K if parity == "odd" else Rat.const(0))
+            exp_right = K if parity != "one" else Rat.const(0)
             # an unreduced int()/floor()/ceil() atom means the pad could not be brought to a polynomial in k: not a verdict
             ck.shape(not any(a.startswith(("int(", "floor(", "ceil(", "round(")) for x in (left, right) for a in x.atoms()),
                      "%s: pad sizes reduce to polynomials in k for %s windows (left=%r right=%r)" % (tag, parity, left, right), f.loc())
@@ -115,14 +123,14 @@ def run(ck, prog):
                 _global(ck, prog, pair, construct, tag, prof, wval, glob, f)
             n_prof += 1
     ck.count("profile/parity cases", n_prof)
-    _density_uses(ck, prog)
-    _compositions(ck, prog)
+    ck.attempt(_density_uses, ck, prog)
+    ck.attempt(_compositions, ck, prog)
     api = [("get_linear_NCPR", "linearDistOfNCPR", {"blobLen": "bloblen"}),
            ("get_linear_FCR", "linearDistOfFCR", {"blobLen": "bloblen"}),
            ("get_linear_sigma", "linearDistOfSigma", {"blobLen": "bloblen"}),
            ("get_linear_hydropathy", "linearDistOfHydropathy", {"blobLen": "bloblen"}),
            ("get_linear_sequence_composition", "linearCompositions", {"blobLen": "bloblen", "grps": "grps"})]
-    check_api(ck, prog, api)
+    ck.attempt(check_api, ck, prog, api)
     ck.floor("profile/parity cases", n_prof, 12)
 
 
